@@ -1,8 +1,9 @@
 import VlsModel.Drv.Common
-/- Line-protocol models serving property C09 (none yet). -/
+import VlsModel.Drv.Sweep
+/- Line-protocol models serving property C09. -/
 namespace VlsModel.Drv.C09
 open VlsModel.Drv
 
-def models : List (String × Model) := []
+def models : List (String × Model) := [ ("sweep", Sweep.model) ]
 
 end VlsModel.Drv.C09
